@@ -581,7 +581,7 @@ func fmtI64(p *int64) string {
 
 func TestC09_RoundTrip(t *testing.T) {
 	st := NewStats("C09", "TestC09_RoundTrip", "rapid: (valid) claims-sets of both profiles, and of registered extension profiles of six styles (own codec through the helpers on either base profile, inherited codec without profile claim, inherited codec and OID name, own claim whose Go field name shadows a base field, extension of an extension; own claims absent / zero / non-zero; wire map checked by the independent reader), via setters/literals -> EncodeClaimsToCBOR -> DecodeClaimsFromCBOR: identical getter results and byte-identical re-encoding; (invalid-but-decodable) model-generated invalid tokens encoded by the independent encoder, decoded, re-encoded: encoder error or same getter results. Non-trivial = beyond the canned builder sets (48/64-byte hashes, >=2 components, optional component text, non-ASCII text, negative client id, no-measurements after a decode, invalid-but-decodable); distinct = class vector + route")
-	st.Require = []string{"valid", "invalid-decoded", "P1", "P2", "nomeas-decoded", "extension", "style=ext-p2", "style=ext-p1", "style=inherit-p1", "style=inherit-p2-oid", "style=shadow-p2", "style=nested-p2", "style=lookalike-key-p2", "ext-own-claim-values", "ext-null-claim-decoded", "ext-without-components", "ext-rich-types", "foreign-container", "style=wide-p2"}
+	st.Require = []string{"valid", "invalid-decoded", "P1", "P2", "nomeas-decoded", "extension", "style=ext-p2", "style=ext-p1", "style=inherit-p1", "style=inherit-p2-oid", "style=shadow-p2", "style=nested-p2", "style=lookalike-key-p2", "ext-own-claim-values", "ext-null-claim-decoded", "ext-without-components", "ext-rich-types", "foreign-container", "style=wide-p2", "style=wide-p2-24-entries", "style=wide-p2-23-entries"}
 	defer st.Flush(t)
 	registerMu.Lock()
 	defer registerMu.Unlock()
@@ -840,6 +840,24 @@ func TestC09_RoundTrip(t *testing.T) {
 					}
 				}
 				own = append(own, ts)
+			}
+			if es.Label == "wide-p2" && genBool.Draw(t, "wide.exact") {
+				// steer the number of entries of the token onto the boundary
+				// of the one-byte map head (23 | 24 entries) and next to it
+				target := rapid.SampledFrom([]int{22, 23, 24, 24, 25, 26}).Draw(t, "wide.entries")
+				base := len(es.wire(m))
+				for i := range own {
+					if i < target-base {
+						if own[i] == nil {
+							own[i] = new(int64)
+						}
+					} else {
+						own[i] = nil
+					}
+				}
+				if n := len(es.wire(m, own...)); n == target {
+					styleLabel = fmt.Sprintf("wide-p2-%d-entries", n)
+				}
 			}
 			if c, err = es.build(m, own...); err != nil {
 				t.Fatalf("VERIF-INFRA: %v", err)
